@@ -14,9 +14,22 @@ if [ "$TIER" = thorough ] && [ -x ./witness.sh ]; then
   # thorough = the same static rules + self-validation of the checker against the stored seeded changes
   ./witness.sh "$PROP" > "evidence/$PROP.witness.log" 2>&1; W=$?
   tail -3 "evidence/$PROP.witness.log"
+  # identifier independence: the verdict on a copy in which every local variable, parameter and
+  # receiver is renamed (overlay, nothing written to /repo) must equal the verdict on the tree itself
+  R=0
+  if ( cd tools/renamelocals && go build -o ../../bin/renamelocals . ) 2>/dev/null; then
+    rn=$(mktemp -d /tmp/bleveverif-rename.XXXXXX); mkdir -p "$rn/verif"; cp known_findings.json "$rn/verif/" 2>/dev/null
+    ( cd "$REPO" && "$OLDPWD/bin/renamelocals" -repo "$REPO" -out "$rn/ov" ./... ) > "evidence/$PROP.rename.log" 2>&1
+    ./bin/bleveverif -prop "$PROP" -tier quick -repo "$REPO" -overlay-root "$rn/ov" -verif "$rn/verif" >> "evidence/$PROP.rename.log" 2>&1; R=$?
+    rm -rf "$rn"
+  else
+    echo "renamelocals tool did not build" > "evidence/$PROP.rename.log"; R=2
+  fi
   ./bin/bleveverif -prop "$PROP" -tier thorough -repo "$REPO" -verif "$PWD"; C=$?
   [ $C -ne 0 ] && exit $C
   if [ $W -ne 0 ]; then echo "UNDECIDED property=$PROP the checker missed a stored witness (see evidence/$PROP.witness.log)"; exit 2; fi
+  if [ $R -ne 0 ]; then echo "UNDECIDED property=$PROP the verdict changes when local identifiers are renamed (see evidence/$PROP.rename.log): a rule depends on names"; exit 2; fi
+  echo "thorough: witnesses fired, verdict independent of local identifier names"
   exit 0
 fi
 exec ./bin/bleveverif -prop "$PROP" -tier "$TIER" -repo "$REPO" -verif "$PWD"
